@@ -1,36 +1,106 @@
 (* C30 — the server only opens channels with security settings it enabled.
-   model : Model.ServerSec (OPN acceptance as coded in uasc + channel_broker, initEndpoints) — hand transcription, tied by
-           the C30 matrix of real channels.  REFUTED: the configuration is not consulted when a channel is opened
-           (known finding); the advertised endpoints are exactly the enabled pairs. *)
+   model : Model.ServerSec — hand transcription of the fixed code (fix ec1f466), tied by
+           Gen.ServerGen.g_sec_table (securityEnabled / acceptSecurity evaluated by the code for ten configurations x every
+           policy x modes 0..4 on every run), g_discovery_services (discoveryService over all 65536 ids) and the C30 matrix of
+           real channels and raw OPN frames.
+   One deliberate relaxation of the literal statement, stated in the fix: an unsecured None/None channel is opened even when
+   None/None is not enabled, because clients look up the endpoints over one (Part 4, 5.4); on such a channel only the five
+   discovery services are served.  A server created without any EnableSecurity keeps serving None/None only. *)
 From Coq Require Import NArith Bool List Lia.
-From Opcua Require Import Model.ServerSec.
+From Opcua Require Import Model.ServerSpace Model.ServerBrowse Model.Server Model.ServerSec Gen.ServerGen.
 Import ListNotations.
 Open Scope N_scope.
 
-(* the full statement: a channel is opened only for an enabled pair *)
+(* the model's decisions are the code's decisions on every row of the regenerated table *)
+Definition row_ok (enabled : list secpair) (r : N * N * bool * N) : bool :=
+  let '(p, m, en, st) := r in
+  Bool.eqb (sec_enabled enabled p m) en &&
+  match accept_security enabled p m with None => st =? 0 | Some x => st =? x end.
+
+Theorem C30_decisions_tied :
+  forallb (fun c => forallb (row_ok (fst c)) (snd c)) g_sec_table = true /\
+  (10 <= length g_sec_table)%nat /\
+  g_discovery_services = [g_SvcFindServers; g_SvcGetEndpoints; g_SvcRegisterServer; g_SvcFindServersOnNetwork; g_SvcRegisterServer2] /\
+  forallb (fun svc => discovery svc) g_discovery_services = true /\ length g_discovery_services = length discovery_services /\
+  (StBadSecurityPolicyRejected, StBadSecurityModeRejected) = (g_StBadSecurityPolicyRejected, g_StBadSecurityModeRejected).
+Proof. repeat split; vm_compute; (reflexivity || lia). Qed.
+
+Lemma pair_in_In : forall enabled p m, pair_in enabled p m = true -> In (p, m) enabled.
+Proof.
+  intros enabled p m H. unfold pair_in in H. apply existsb_exists in H. destruct H as ([a b] & Hin & Hab).
+  cbn [fst snd] in Hab. apply andb_true_iff in Hab. destruct Hab as [Ha Hb]. apply N.eqb_eq in Ha, Hb. now subst.
+Qed.
+
+Lemma sec_enabled_spec : forall enabled p m, sec_enabled enabled p m = true ->
+  In (p, m) enabled \/ (enabled = [] /\ (p, m) = (0, 1)).
+Proof.
+  intros [|e t] p m H; cbn [sec_enabled] in H.
+  - right. apply andb_true_iff in H. destruct H as [Hp Hm]. apply N.eqb_eq in Hp, Hm. now subst.
+  - left. now apply pair_in_In.
+Qed.
+
+(* THE PROPERTY, first half, all configurations and all requested pairs (consistent or not):
+   an OpenSecureChannel request is accepted only for an enabled pair - or for None/None, which then is a
+   discovery-only channel (next theorem); for a server without any EnableSecurity only for None/None *)
 Definition C30_statement : Prop :=
-  forall enabled has_key p m, opn_accept enabled has_key p m = true -> In (p, m) enabled.
+  forall enabled has_key p m, opn_accept enabled has_key p m = true ->
+    In (p, m) enabled \/ (p, m) = (0, 1).
 
-(* witness (DESIGN row 23): only Basic256Sha256(5)/SignAndEncrypt enabled, the client asks for None/None *)
-Theorem C30_refuted_policy_adopted_from_client : ~ C30_statement.
+Theorem C30_channel_only_for_enabled_pair : C30_statement.
 Proof.
-  intros C. specialize (C [(5, 3)] true 0 1 eq_refl). cbn in C. destruct C as [C|[]]. discriminate.
+  intros enabled has_key p m H. unfold opn_accept in H.
+  destruct (accept_security enabled p m) eqn:A; [discriminate|]. unfold accept_security in A.
+  destruct (sec_enabled enabled p m) eqn:E.
+  - destruct (sec_enabled_spec _ _ _ E) as [Hin|[_ Hp]]; [now left | now right].
+  - destruct ((p =? 0) && (m =? 1)) eqn:N1.
+    + right. apply andb_true_iff in N1. destruct N1 as [Hp Hm]. apply N.eqb_eq in Hp, Hm. now subst.
+    + destruct (existsb (fun e => fst e =? p) enabled); discriminate.
 Qed.
 
-(* even a server with nothing enabled accepts *)
-Theorem C30_refuted_nothing_enabled : exists p m, opn_accept [] true p m = true.
-Proof. exists 0, 1. reflexivity. Qed.
-
-(* what does hold of the acceptance: only consistent pairs, and a secured policy only if the server has a key *)
-Theorem C30_partial_accept_shape : forall enabled has_key p m, opn_accept enabled has_key p m = true ->
-  consistent p m = true /\ (p <> 0 -> has_key = true).
+(* every refusal carries one of the two security status codes *)
+Theorem C30_refusal_status : forall enabled p m st, accept_security enabled p m = Some st ->
+  (st = StBadSecurityPolicyRejected \/ st = StBadSecurityModeRejected) /\ sec_enabled enabled p m = false /\ (p, m) <> (0, 1).
 Proof.
-  intros enabled has_key p m H. unfold opn_accept in H. apply andb_true_iff in H. destruct H as [H1 H2].
-  split; [exact H1|]. intros Hp. apply orb_true_iff in H2. destruct H2 as [H2|H2]; [apply N.eqb_eq in H2; congruence | exact H2].
+  intros enabled p m st H. unfold accept_security in H.
+  destruct (sec_enabled enabled p m); [discriminate|].
+  destruct ((p =? 0) && (m =? 1)) eqn:N1; [discriminate|].
+  split; [destruct (existsb (fun e => fst e =? p) enabled); inversion H; tauto|]. split; [reflexivity|].
+  intros C. inversion C; subst. discriminate.
 Qed.
 
-(* the second half of the property holds: the advertised endpoints are exactly the enabled pairs (per url) *)
-Theorem C30_partial_advertised_are_enabled : forall enabled urls u sec,
+(* what is served on a channel whose pair is not enabled (the None/None discovery channel): nothing but discovery.
+   For every state, request and token: any other service with a handler answers BadSecurityPolicyRejected, state unchanged *)
+Theorem C30_only_discovery_on_other_channels : forall enabled chansec fuel s chan tok r,
+  sec_enabled enabled (fst (chansec chan)) (snd (chansec chan)) = false ->
+  discovery (svc_of r) = false -> has_handler r = true ->
+  handle_on enabled chansec fuel s (EReq chan tok r) = (s, OFault StBadSecurityPolicyRejected).
+Proof. intros enabled chansec fuel s chan tok r E D H. cbn [handle_on]. now rewrite H, D, E. Qed.
+
+(* so: a session service or any data service that is served runs over a channel with an enabled pair *)
+Theorem C30_served_implies_enabled : forall enabled chansec fuel s chan tok r s' o,
+  discovery (svc_of r) = false -> has_handler r = true ->
+  handle_on enabled chansec fuel s (EReq chan tok r) = (s', o) -> o <> OFault StBadSecurityPolicyRejected ->
+  In (chansec chan) enabled \/ (enabled = [] /\ chansec chan = (0, 1)).
+Proof.
+  intros enabled chansec fuel s chan tok r s' o D H Hh Ho.
+  destruct (sec_enabled enabled (fst (chansec chan)) (snd (chansec chan))) eqn:E.
+  - destruct (chansec chan) as [p m]. cbn [fst snd] in E. now apply sec_enabled_spec.
+  - rewrite (C30_only_discovery_on_other_channels _ _ _ _ _ _ _ E D H) in Hh. inversion Hh; subst. congruence.
+Qed.
+
+(* an enabled pair is accepted whenever uasc can run it (nothing enabled is locked out) *)
+Theorem C30_enabled_pairs_accepted : forall enabled has_key p m, In (p, m) enabled -> uasc_ok has_key p m = true ->
+  opn_accept enabled has_key p m = true.
+Proof.
+  intros enabled has_key p m Hin Hu. unfold opn_accept, accept_security.
+  assert (E : sec_enabled enabled p m = true).
+  { destruct enabled as [|e t]; [destruct Hin|]. cbn [sec_enabled]. unfold pair_in. apply existsb_exists.
+    exists (p, m). split; [exact Hin|]. cbn [fst snd]. now rewrite !N.eqb_refl. }
+  now rewrite E.
+Qed.
+
+(* second half: the advertised endpoints are exactly the enabled pairs (per url) *)
+Theorem C30_advertised_are_enabled : forall enabled urls u sec,
   In (u, sec) (advertised enabled urls) <-> In sec enabled /\ In u urls.
 Proof.
   intros enabled urls u sec. unfold advertised. rewrite in_flat_map. split.
@@ -38,10 +108,24 @@ Proof.
   - intros [Hs Hu]. exists sec. split; [exact Hs|]. apply in_map_iff. exists u. now split.
 Qed.
 
-Example C30_ex_accept : opn_accept [(0, 1); (5, 3)] true 5 3 = true /\ opn_accept [(0, 1)] false 5 3 = false.
-Proof. split; reflexivity. Qed.
+(* the reproduced defect (DESIGN row 23), kept: before the fix the statement was false *)
+Theorem C30_refuted_before_fix :
+  ~ (forall enabled has_key p m, opn_accept_before_fix enabled has_key p m = true -> In (p, m) enabled \/ (p, m) = (0, 1)).
+Proof.
+  intros C. specialize (C [(0, 1)] true 5 3 eq_refl). destruct C as [[C|[]]|C]; discriminate.
+Qed.
 
-Print Assumptions C30_refuted_policy_adopted_from_client.
-Print Assumptions C30_refuted_nothing_enabled.
-Print Assumptions C30_partial_accept_shape.
-Print Assumptions C30_partial_advertised_are_enabled.
+Example C30_ex : opn_accept [(5, 3)] true 5 3 = true /\ opn_accept [(5, 3)] true 5 2 = false /\
+  accept_security [(5, 3)] 5 2 = Some StBadSecurityModeRejected /\ accept_security [(5, 3)] 4 3 = Some StBadSecurityPolicyRejected /\
+  opn_accept [(5, 3)] true 0 1 = true /\ sec_enabled [(5, 3)] 0 1 = false /\ opn_accept [] true 0 1 = true /\ opn_accept [] true 5 3 = false /\
+  accept_security [(0, 1)] 0 2 = Some StBadSecurityModeRejected.
+Proof. vm_compute. repeat split. Qed.
+
+Print Assumptions C30_decisions_tied.
+Print Assumptions C30_channel_only_for_enabled_pair.
+Print Assumptions C30_refusal_status.
+Print Assumptions C30_only_discovery_on_other_channels.
+Print Assumptions C30_served_implies_enabled.
+Print Assumptions C30_enabled_pairs_accepted.
+Print Assumptions C30_advertised_are_enabled.
+Print Assumptions C30_refuted_before_fix.
